@@ -38,7 +38,7 @@ type Report struct {
 }
 
 func NewReport(prop, tier string, c *Ctx) *Report {
-	return &Report{Prop: prop, Tier: tier, Start: time.Now(), seen: map[string]bool{}, ctx: c}
+	return &Report{Prop: prop, Tier: tier, Start: time.Now(), seen: map[string]bool{}, ctx: c, Notes: append([]string(nil), aliasNotes...)}
 }
 
 func (r *Report) add(o Oblig) {
